@@ -98,10 +98,14 @@ class RigSettings(secsgem.hsms.HsmsSettings):
 
 
 class HsmsRig:
-    def __init__(self, active=False, session_id=0, inert=False, **kw):
-        mode = secsgem.hsms.HsmsConnectMode.ACTIVE if active else secsgem.hsms.HsmsConnectMode.PASSIVE
-        self.settings = RigSettings(connect_mode=mode, device_id=session_id, **kw)
-        self.proto = secsgem.hsms.HsmsProtocol(self.settings)
+    def __init__(self, active=False, session_id=0, inert=False, proto=None, settings=None, **kw):
+        if proto is None:
+            mode = secsgem.hsms.HsmsConnectMode.ACTIVE if active else secsgem.hsms.HsmsConnectMode.PASSIVE
+            self.settings = RigSettings(connect_mode=mode, device_id=session_id, **kw)
+            self.proto = secsgem.hsms.HsmsProtocol(self.settings)
+        else:  # a protocol created by a handler from RigSettings
+            self.settings = settings
+            self.proto = proto
         self.buffer = TrackedByteQueue()
         self.proto._receive_buffer = self.buffer
         disp = self.proto._thread
